@@ -281,21 +281,21 @@ func (r *Reporter) Finish(verifDir, tier string, seed int64, start time.Time, kn
 		"seed":        seed,
 		"level":       "other",
 		"coverage": map[string]any{
-			"explanation":         expl,
-			"obligations":         total,
-			"discharged":          disch,
-			"evaluations":         total,
-			"distinct_nontrivial": len(dk),
-			"rule":                "an obligation is one instance of a static rule at one resolved construct (function, case arm, template, JS function, table entry); distinct = distinct (rule, construct-key) pairs; every counted obligation matched a real construct of the tree (vacuity minima enforced per rule)",
-			"samples":             samples,
-			"exhaustive":          true,
-			"rules":               r.Stats,
-			"analysed":            r.Analysed,
-			"known_findings":      knownN,
-			"informational":       infoList,
+			"explanation":          expl,
+			"obligations":          total,
+			"discharged":           disch,
+			"evaluations":          total,
+			"distinct_nontrivial":  len(dk),
+			"rule":                 "an obligation is one instance of a static rule at one resolved construct (function, case arm, template, JS function, table entry); distinct = distinct (rule, construct-key) pairs; every counted obligation matched a real construct of the tree (vacuity minima enforced per rule)",
+			"samples":              samples,
+			"exhaustive":           true,
+			"rules":                r.Stats,
+			"analysed":             r.Analysed,
+			"known_findings":       knownN,
+			"informational":        infoList,
 			"rules_with_instances": distinct,
-			"checker_cmd":         fmt.Sprintf("./bin/gjscheck -property %s -tier %s", r.Property, tier),
-			"trusted_base":        []string{"go/types, go/packages, go/cfg (Go 1.23.5, x/tools v0.29.0)", "acorn 8.16 (bundled with Node 20) as parser only"},
+			"checker_cmd":          fmt.Sprintf("./bin/gjscheck -property %s -tier %s", r.Property, tier),
+			"trusted_base":         []string{"go/types, go/packages, go/cfg (Go 1.23.5, x/tools v0.29.0)", "acorn 8.16 (bundled with Node 20) as parser only"},
 		},
 		"assumptions": assumptions,
 		"wall_s":      time.Since(start).Seconds(),
